@@ -191,6 +191,10 @@ def call_shapes():
         for r in range(len(USER_KW) + 1):
             for ks in itertools.combinations(USER_KW, r):
                 out.append((args, {k: f"U_{k}" for k in ks}))
+        # user keywords that are called like the variadic parameters themselves
+        for vk in (("args",), ("kwargs",), ("args", "kwargs")):
+            for base in ((), ("x",)):
+                out.append((args, {k: f"U_{k}" for k in vk + base}))
     return out
 
 
